@@ -57,6 +57,10 @@ func (a *Atr[T]) Compute(highs, lows, closings <-chan T) <-chan T {
 	highs = helper.Skip(highs, 1)
 	lows = helper.Skip(lows, 1)
 
+	// The previous closing waits for the current high and low; give it a slot so that
+	// inputs duplicated from one stream do not block each other.
+	closings = helper.Buffered(closings, 1)
+
 	tr := helper.Operate3(highs, lows, closings, func(high, low, closing T) T {
 		return T(math.Max(float64(high-low), math.Max(float64(high-closing), float64(closing-low))))
 	})
